@@ -27,6 +27,7 @@ package ruler
 //@ ensures [att-type] action == ActionSignBeaconAttestation ==> (forall i int :: 0 <= i && i < len(data) && result[i] == rules.APPROVED ==> hastype(data[i].Data, "*rules.SignBeaconAttestationData"))
 //@ ensures [prop-type] action == ActionSignBeaconProposal ==> (forall i int :: 0 <= i && i < len(data) && result[i] == rules.APPROVED ==> hastype(data[i].Data, "*rules.SignBeaconProposalData"))
 //@ ensures [gen-type] action == ActionSign ==> (forall i int :: 0 <= i && i < len(data) && result[i] == rules.APPROVED ==> hastype(data[i].Data, "*rules.SignData") && prefix4(unbox(data[i].Data, "*rules.SignData").Domain) != ATT && prefix4(unbox(data[i].Data, "*rules.SignData").Domain) != PROP)
+//@ ensures [access] action == ActionAccessAccount && credentials != nil && credentials.Client != "" && (forall j int :: 0 <= j && j < len(data) ==> data[j] != nil && data[j].Data != nil) ==> (forall i int :: 0 <= i && i < len(data) && hastype(data[i].Data, "*rules.AccessAccountData") ==> result[i] == rules.APPROVED)
 //@ ensures [distinct] locking(action) ==> (forall i int, j int :: 0 <= i && i < j && j < len(data) && result[i] == rules.APPROVED && result[j] == rules.APPROVED ==> bytes(data[i].PubKey) != bytes(data[j].PubKey))
 //@ aux-ensures [att] action == ActionSignBeaconAttestation ==> (forall i int :: 0 <= i && i < len(data) && result[i] == rules.APPROVED ==> bytes(data[i].PubKey) in tokroot && tokroot[bytes(data[i].PubKey)] == attRootOf(unbox(data[i].Data, "*rules.SignBeaconAttestationData")))
 //@ aux-ensures [prop] action == ActionSignBeaconProposal ==> (forall i int :: 0 <= i && i < len(data) && result[i] == rules.APPROVED ==> bytes(data[i].PubKey) in tokroot && tokroot[bytes(data[i].PubKey)] == propRootOf(unbox(data[i].Data, "*rules.SignBeaconProposalData")))
